@@ -312,6 +312,18 @@ def r95(db, ctx):
                 false_t = [tg for v, tg in sw['arms'] if int(v) == 0]
                 if false_t and returns_err(f, false_t[0]) and [x[1] for x in lohi] == [0.0, 1.0]:
                     rng_ok = True
+    if not rng_ok:
+        # the same test spelled with comparisons: the block that accumulates the frequency into the sum is only reached under 0 <= f and f <= 1
+        for bi, blk in enumerate(f.blocks):
+            for st in blk['stmts']:
+                if st['k'] == 'assign' and st['rv']['k'] == 'bin' and st['rv']['op'] == 'Add' and st['rv'].get('ty') == 'f32':
+                    fe = norm(R.operand(st['rv']['b']))
+                    rels = G.relations(f, R, bi)
+                    lo = G.holds(rels, 'ge', lambda e: norm(e) == fe, lambda e: norm(e) == ('k', 0.0))
+                    hi = G.holds(rels, 'le', lambda e: norm(e) == fe, lambda e: norm(e) == ('k', 1.0))
+                    # the excluded side must return Err: every exit not dominated by this block's loop continuation is an Err
+                    if lo and hi and all(returns_err(f, tg) for r_ in (lo, hi) for tg in f.succs(r_[3]) if not f.dominates(tg, bi) and tg != bi and not f.reaches(tg, bi)):
+                        rng_ok = True
     if rng_ok:
         n += 1
         ctx.ok('R9.5', f, 'each frequency outside 0.0..=1.0 returns Err')
@@ -414,9 +426,71 @@ def r93(db, ctx):
     ctx.floor('R9.3', n, 2, 'default-symbol sites')
 
 
+def r97(db, ctx):
+    ctx.rule('R9.7', 'Background::from_counts: frequencies[s] = counts[s] / (sum of all K counts) is written for every symbol index of the alphabet '
+                     '(loop over symbols() or exactly 0..K), into a zero-initialised array that becomes the result; total == 0 is rejected')
+    try:
+        f = db.fn('lightmotif::abc::Background::<A>::from_counts')
+    except KeyError:
+        ctx.fail('R9.7', 'lightmotif::abc::Background::from_counts', 'from_counts', 'reason=anchor-missing')
+        return
+    R = X.Rec(f)
+    st = [s_ for s_ in X.stores(f, R) if norm(s_['target'])[0] == 'idx']
+    probs = []
+    if len(st) != 1:
+        probs.append(f'reason=unrecognised-shape: {len(st)} indexed stores, expected one')
+    else:
+        tg, v = norm(st[0]['target']), norm(st[0]['value'])
+        I = tg[2]
+        b = m(('bin', 'Div', ('cast', ('idx', ('p', 1), '$j'), '_', 'IntToFloat'), ('cast', '$tot', '_', 'IntToFloat')), v)
+        if b is None:
+            probs.append(f'stored value is {X.show(v, 120)}, expected counts[i] as f32 / total as f32')
+        else:
+            if b['$j'] != I:
+                probs.append(f'frequencies[{X.show(I, 40)}] is computed from counts[{X.show(b["$j"], 40)}]')
+            if m(('call~', 'Iterator::sum', (('call~', 'slice::iter', (('p', 1),)),)), b['$tot']) is None:
+                probs.append(f'total is {X.show(b["$tot"], 80)}, expected counts.iter().sum() over all K counts')
+        # coverage of the index
+        cov = False
+        mi = m(('call~', 'Symbol::as_index', (('elem', ('call~', 'Alphabet::symbols', ()), '$L'),)), I)
+        if mi is not None:
+            cov = True          # every symbol of the alphabet (R5.1: symbols() enumerates all K symbols, as_index is a bijection onto 0..K)
+        elif I[0] == 'elem' and I[1][0] == 'agg' and len(I[1][2]) == 2 and norm(I[1][2][0]) == ('k', 0) and common.is_usize_const(I[1][2][1]):
+            cov = True
+        if not cov:
+            probs.append(f'the index {X.show(I, 80)} does not range over all K symbol indices (symbols() or 0..K::USIZE): the skipped symbols keep frequency 0 '
+                         'and the frequencies no longer sum to one')
+        # target array is the returned, zero-initialised one
+        F = tg[1]
+        okF = False
+        if F[0] == 'v':
+            ds = f.defs().get(F[1], [])
+            okF = len(ds) == 1 and ds[0][1] == 'term' and norm(R.call(ds[0][2]))[1].endswith('default')
+        if not okF:
+            probs.append('the frequencies array is not a fresh Default::default() array')
+        agg = [st_ for blk in f.blocks for st_ in blk['stmts'] if st_['k'] == 'assign' and st_['rv']['k'] == 'agg' and st_['rv'].get('adt', '').endswith('abc::Background')]
+        if len(agg) != 1 or norm(R.operand(agg[0]['rv']['ops'][agg[0]['rv']['fields'].index('frequencies')])) != F:
+            probs.append('the filled array is not the frequencies field of the returned Background')
+    # total == 0 -> Err
+    zero_err = False
+    for bi in range(len(f.blocks)):
+        t = f.term(bi)
+        if t['k'] == 'switch':
+            d = norm(R.operand(t['discr']))
+            if m(('bin', 'Eq', ('call~', 'Iterator::sum', '_'), ('k', 0)), d) is not None or m(('bin', 'Eq', '$x', ('k', 0)), d) is not None:
+                zero_err = True
+    if not zero_err:
+        probs.append('no rejection of an all-zero count vector (division by zero total)')
+    if probs:
+        ctx.fail('R9.7', f, 'from_counts', '; '.join(probs), span=st[0]['span'] if st else None)
+    else:
+        ctx.ok('R9.7', f, 'frequencies[idx(s)] = counts[idx(s)] / sum(counts) for every s in symbols(); zero total rejected', ['R5.1 symbols() covers the alphabet'])
+
+
 def run(db, ctx):
     r91(db, ctx)
     r92(db, ctx)
     r93(db, ctx)
     r94(db, ctx)
     r95(db, ctx)
+    r97(db, ctx)
